@@ -7,6 +7,7 @@ RTV.Model.DateUtils through the Lean driver; (pipeline) recognize_datetime(expr,
 property statement computed independently here and vs the model's prediction."""
 import calendar
 import datetime as dt
+import re
 
 from lib import common, calcorr
 from lib.calcorr import fmt_dt, ref_fields, guarded, at
@@ -18,26 +19,36 @@ GEN = []
 REQUIRED_THEOREMS = ['this_in_iso_week', 'next_is_following_week', 'last_is_preceding_week', 'today_is_reference_date',
                      'tomorrow_is_next_day', 'yesterday_is_previous_day', 'n_days_ago', 'in_n_days', 'n_weeks_is_7n_days',
                      'this_week_is_monday_to_monday', 'week_timex_matches_isocalendar', 'year_period',
-                     'month_period_partial', 'month_period_fixed', 'next_month_fails_on_day_overflow', 'now_is_reference']
+                     'month_period_fixed', 'month_period_prefix_partial', 'next_month_prefix_regression', 'now_is_reference',
+                     'hms_ago_later', 'hms_units', 'week_prefix_period', 'weekend_is_saturday_to_monday',
+                     'weekend_timex_partial', 'weekend_timex_fails_at_year_boundary', 'weekend_timex_fixed',
+                     'month_prefix_period', 'year_prefix_period', 'year_to_date', 'month_to_date',
+                     'month_to_date_past_start_fails', 'rest_of_week', 'rest_of_month', 'rest_of_year', 'rest_of_witnesses']
 RULE = ('unit: every ordinal of 1950..2090 + stride 97 over 0001..9999 (thorough: every ordinal) for ord2ymd/weekday/'
         'isocalendar; datedelta shim x 22 deltas on boundary days + all days of 2019-2021; this/next/last on every day of '
         '1950..2090 x dow 0..7; get_date_result D/W/MON/Y x N x both directions; parse_implicit_date and '
         '_parse_one_word_period on boundary days (month ends/starts, leap days, year boundaries, ISO week 52/53/1, all '
         'weekdays) + seeded days x reference times {00:00:00, 14:30:00, 23:59:59}; pipeline: recognize_datetime on the '
         'families of the property x boundary-first references x N in {1,2,7,30,365,5000} + seeded; non-trivial = a '
-        'distinct (family, expression, reference) case that produced an entity')
-ASSUMPTIONS = ['datedelta is absent from the sandbox: harness/shims/datedelta implements the documented semantics '
+        'distinct (family, expression, reference) case that produced an entity. Round 2: hours/minutes/seconds ago/later, '
+        'early/mid/late week|month|year, weekend, year/month to date, rest of the week|month|year at unit and pipeline level; '
+        'contracts/C08.json: the expressions the cross-platform Specs contain for es-es, es-mx, fr-fr, pt-br, it-it, de-de, '
+        'nl-nl, zh-cn, en-us (classified with the property itself at the Specs reference) x boundary-first references, '
+        'numbers varied, same independent oracle')
+ASSUMPTIONS = ['other cultures: only the pipeline is checked (culture configurations are not modelled); which expression is '
+               'demanded of which culture is fixed by contracts/C08.json (derived from the Specs, committed)',
+               'datedelta is absent from the sandbox: harness/shims/datedelta implements the documented semantics '
                '(roll forward to the 1st when adding, clamp to month end when subtracting); the next-month finding '
                'depends on it', 'English culture only at pipeline level (the arithmetic is culture independent; '
                'get_swift_* of other cultures is not modelled)',
-               'early/mid/late prefixes, weekend, month-to-date/year-to-date branches of _parse_one_word_period are '
-               'not modelled (monitored by C11/C19)']
+               'for early/mid/late prefixes and rest-of the oracle is the model (what the code computes), not a property']
 
 FINGERPRINTS = {'DateUtils.this': '6ae1c138c40e9f11', 'DateUtils.next': 'cf69080177d11982', 'DateUtils.last': '7e979dffc1250d33',
                 'DateUtils.safe_create_from_value': '7911b510a7fb4914', 'DateUtils.is_valid_date': 'b009b164560df4ab',
                 'AgoLaterUtil.get_date_result': 'ce946d43a40675ee', 'DateTimeFormatUtil.luis_date': 'c0bdccb0169441fc',
                 'BaseDateParser.parse_implicit_date': '4f2120247cbf4084',
-                'BaseDatePeriodParser._parse_one_word_period': 'bc7552d8c95daa64',
+                'BaseDatePeriodParser._parse_one_word_period': '1592f984d1fa399b',
+                'BaseDatePeriodParser._parse_duration': 'a5a357822876327e',
                 'BaseDateTimeParser.parse_basic_regex': 'fb42b4e84e270260'}
 EXPLANATION = ('Lean theorems about the model of the date arithmetic (every reference, every N, no bound) + correspondence '
                'of that model with the working tree (CPython calendar, datedelta shim, DateUtils, AgoLaterUtil, the two '
@@ -49,54 +60,20 @@ SWIFTS = [('this', 0), ('next', 1), ('last', -1)]
 NS = [1, 2, 7, 30, 365, 5000]
 
 # the negative witnesses proved in RTV/Props/C08.lean (replayed on the implementation every run)
-WITNESS_NEXT_MONTH = dt.datetime(2020, 1, 31, 0, 0, 0)
+WITNESS_NEXT_MONTH = dt.datetime(2020, 1, 31, 0, 0, 0)          # next_month_prefix_regression
+WITNESS_WEEKEND = [dt.datetime(2020, 12, 31, 0, 0, 0), dt.datetime(2021, 1, 3, 0, 0, 0)]   # weekend_timex_fails_at_year_boundary
+WITNESS_MTD = dt.datetime(2020, 5, 20, 14, 30, 0)               # month_to_date_past_start_fails
+PREFIXES = [('early', (1, 0, 0)), ('mid', (0, 1, 0)), ('late', (0, 0, 1))]
 
 
-# ------------------------------------------------------------------ the property, stated independently
+# ------------------------------------------------------------------ the property (lib/calcorr.c08_oracle) and the model
 
-def monday_of(d):
-    return d - dt.timedelta(days=d.isoweekday() - 1)
-
-
-def iso(d):
-    return '%04d-%02d-%02d' % (d.year, d.month, d.day)
-
-
-def shift_month(y, m, k):
-    t = y * 12 + (m - 1) + k
-    return t // 12, t % 12 + 1
+monday_of, iso, shift_month = calcorr.monday_of, calcorr.iso, calcorr.shift_month
+MODEL_ONLY = ('weekp', 'monthp', 'yearp', 'restof')      # families whose oracle is the model: "what the code computes"
 
 
 def oracle(fam, par, R):
-    """Expected `values` list of the property for family `fam` with parameters `par` at reference R."""
-    today = R.date()
-    if fam == 'special':
-        v = today + dt.timedelta(days=par)
-        return [{'timex': iso(v), 'type': 'date', 'value': iso(v)}]
-    if fam == 'ago':
-        unit, n, sign = par
-        v = today + dt.timedelta(days=sign * n * (7 if unit == 'week' else 1))
-        return [{'timex': iso(v), 'type': 'date', 'value': iso(v)}]
-    if fam == 'weekday':
-        k, wd = par           # wd: 1..7
-        v = monday_of(today) + dt.timedelta(days=7 * k + wd - 1)
-        return [{'timex': iso(v), 'type': 'date', 'value': iso(v)}]
-    if fam == 'week':
-        s = monday_of(today) + dt.timedelta(days=7 * par)
-        e = s + dt.timedelta(days=7)
-        ic = s.isocalendar()
-        return [{'timex': '%04d-W%02d' % (ic[0], ic[1]), 'type': 'daterange', 'start': iso(s), 'end': iso(e)}]
-    if fam == 'month':
-        y, m = shift_month(today.year, today.month, par)
-        y2, m2 = shift_month(y, m, 1)
-        return [{'timex': '%04d-%02d' % (y, m), 'type': 'daterange', 'start': iso(dt.date(y, m, 1)),
-                 'end': iso(dt.date(y2, m2, 1))}]
-    if fam == 'year':
-        y = today.year + par
-        return [{'timex': '%04d' % y, 'type': 'daterange', 'start': '%04d-01-01' % y, 'end': '%04d-01-01' % (y + 1)}]
-    if fam == 'now':
-        return [{'timex': 'PRESENT_REF', 'type': 'datetime', 'value': R.strftime('%Y-%m-%d %H:%M:%S')}]
-    raise KeyError(fam)
+    return None if fam in MODEL_ONLY else calcorr.c08_oracle(fam, par, R)
 
 
 def model_line(fam, par, R):
@@ -106,11 +83,26 @@ def model_line(fam, par, R):
     if fam == 'ago':
         unit, n, sign = par
         return 'du.ago\t%s\t%d\t%s\t%d' % ('W' if unit == 'week' else 'D', n, rf, 1 if sign > 0 else 0)
+    if fam == 'hms':
+        unit, n, sign = par
+        return 'du.hms\t%s\t%d\t%s\t%d' % (unit[0].upper(), n, rf, 1 if sign > 0 else 0)
     if fam == 'weekday':
         k, wd = par
         return 'du.wd\t%s\t%s\t%d' % ({0: 'this', 1: 'next', -1: 'last'}[k], rf, wd % 7)   # culture map: sunday = 0
-    if fam in ('week', 'month', 'year'):
+    if fam in ('week', 'month', 'year', 'weekend'):
         return 'du.%s\t%s\t%d' % (fam, rf, par)
+    if fam == 'weekp':
+        k, fl = par
+        return 'du.weekp\t%s\t%d\t%d\t%d\t%d' % (rf, k, fl[0], fl[1], fl[2])
+    if fam in ('monthp', 'yearp'):
+        k, fl = par
+        return 'du.%s\t%s\t%d\t%d\t%d' % (fam, rf, k, fl[0], fl[2])
+    if fam == 'ytd':
+        return 'du.ytd\t%s' % rf
+    if fam == 'mtd':
+        return 'du.mtd\t%s' % rf
+    if fam == 'restof':
+        return 'du.restof\t%s\t%s' % (par, rf)
     return None
 
 
@@ -120,14 +112,34 @@ def pad_date(s):
     return '%04d-%02d-%02d' % (int(y), int(m), int(d))
 
 
+def pad_datetime(s):
+    d, secs = s.split('@')
+    secs = int(secs)
+    return '%s %02d:%02d:%02d' % (pad_date(d), secs // 3600, secs % 3600 // 60, secs % 60)
+
+
 def model_values(fam, ans):
     """What the model predicts the pipeline prints (the resolution step formats dates with luis_date)."""
     if ans.startswith('err:') or ans == 'bad-op':
         return ans
+    if ans == 'none':
+        return []
     f = ans.split('\t')
     if fam in ('special', 'ago', 'weekday'):
         return [{'timex': f[0], 'type': 'date', 'value': pad_date(f[1])}]
+    if fam == 'hms':
+        return [{'timex': f[0], 'type': 'datetime', 'value': pad_datetime(f[1])}]
+    if fam == 'mtd':       # past value first, one value when both print the same
+        a = {'timex': f[0], 'type': 'daterange', 'start': pad_date(f[2]), 'end': pad_date(f[3])}
+        b = {'timex': f[0], 'type': 'daterange', 'start': pad_date(f[1]), 'end': pad_date(f[3])}
+        return [a] if a == b else [a, b]
     return [{'timex': f[0], 'type': 'daterange', 'start': pad_date(f[1]), 'end': pad_date(f[2])}]
+
+
+def strip_mod(vals):
+    if not isinstance(vals, list):
+        return vals
+    return [{k: v for k, v in x.items() if k != 'Mod'} for x in vals]
 
 
 def month_overflow(fam, par, R):
@@ -188,6 +200,17 @@ def unit_agolater(ctx, days):
                         res = AgoLaterUtil.get_date_result(unit, n, R, fut, AgoLaterMode.DATE)
                         return '%s\t%s' % (res.timex, fmt_dt(res.future_value)) if res.success else 'no'
                     impl.append(guarded(run))
+    for i, d in enumerate(days):
+        R = at(d, calcorr.TIMES[i % 3])
+        for unit in ('H', 'M', 'S'):
+            for n in ([1, 24, 60, 3600, 86400, 100000] if i % 5 == 0 else [r.randint(1, 200000)]):
+                for fut in (True, False):
+                    lines.append('du.hms\t%s\t%d\t%s\t%d' % (unit, n, ref_fields(R), 1 if fut else 0))
+
+                    def run2():
+                        res = AgoLaterUtil.get_date_result(unit, n, R, fut, AgoLaterMode.DATETIME)
+                        return '%s\t%s' % (res.timex, fmt_dt(res.future_value)) if res.success else 'no'
+                    impl.append(guarded(run2))
     model = common.driver(lines)
     ctx.count('AgoLaterUtil.get_date_result', len(lines))
     for l, a, b in zip(lines, impl, model):
@@ -231,6 +254,42 @@ def unit_parsers(ctx, days):
                 lines.append('du.%s\t%s\t%d' % (unit, rf, sw))
                 impl.append(guarded(lambda: res3(pp._parse_one_word_period(pre + ' ' + unit, R))))
                 meta.append(pre + ' ' + unit)
+        if i % 3 == 0:
+            for pw, fl in PREFIXES:
+                for pre, sw in SWIFTS:
+                    lines.append('du.weekp\t%s\t%d\t%d\t%d\t%d' % (rf, sw, fl[0], fl[1], fl[2]))
+                    impl.append(guarded(lambda: res3(pp._parse_one_word_period('%s %s week' % (pw, pre), R))))
+                    meta.append('%s %s week' % (pw, pre))
+                    for unit in ('month', 'year'):
+                        lines.append('du.%sp\t%s\t%d\t%d\t%d' % (unit, rf, sw, fl[0], fl[2]))
+                        impl.append(guarded(lambda: res3(pp._parse_one_word_period('%s %s %s' % (pw, pre, unit), R))))
+                        meta.append('%s %s %s' % (pw, pre, unit))
+            for pre, sw in SWIFTS:
+                lines.append('du.weekend\t%s\t%d' % (rf, sw))
+                impl.append(guarded(lambda: res3(pp._parse_one_word_period('%s weekend' % pre, R))))
+                meta.append('%s weekend' % pre)
+            lines.append('du.ytd\t%s' % rf)
+            impl.append(guarded(lambda: res3(pp._parse_one_word_period('year to date', R))))
+            meta.append('year to date')
+            lines.append('du.mtd\t%s' % rf)
+
+            def mtd():
+                x = pp._parse_one_word_period('month to date', R)
+                if not (x.success and x.future_value[1] == x.past_value[1]):
+                    return 'no'
+                return '%s\t%s\t%s\t%s' % (x.timex, fmt_dt(x.future_value[0]), fmt_dt(x.past_value[0]), fmt_dt(x.future_value[1]))
+            impl.append(guarded(mtd))
+            meta.append('month to date')
+            for u, word in (('W', 'week'), ('MON', 'month'), ('Y', 'year')):
+                lines.append('du.restof\t%s\t%s' % (u, rf))
+
+                def rest():
+                    x = pp._parse_duration('rest of the %s' % word, R)
+                    if not x.success:
+                        return 'none'
+                    return '%s\t%s\t%s' % (x.timex, fmt_dt(x.future_value[0]), fmt_dt(x.future_value[1]))
+                impl.append(guarded(rest))
+                meta.append('rest of the %s' % word)
         if i % 7 == 0:
             r = dtp.parse_basic_regex('now', R)
             if not (r.success and r.timex == 'PRESENT_REF' and r.future_value == R and r.past_value == R):
@@ -242,14 +301,20 @@ def unit_parsers(ctx, days):
     diff = [i for i, (a, b) in enumerate(zip(impl, model)) if a != b]
     mdiff = [i for i in diff if lines[i].startswith('du.month\t')]
     if mdiff:
-        # does the tree follow the repaired variant (shift the first of the month)?  DESIGN 2.5
-        fixed = common.driver([lines[i].replace('du.month\t', 'du.monthfixed\t', 1) for i in mdiff])
-        ok = {i for i, f in zip(mdiff, fixed) if impl[i] == f}
-        if len(ok) == len(mdiff):
-            ctx.extra['month_period_variant'] = 'repaired (first of the month shifted)'
-        diff = [i for i in diff if i not in ok]
-    else:
-        ctx.extra['month_period_variant'] = 'current (reference + datedelta(months=swift))'
+        # a revert of d8aa8bf73?  the pre-fix variant reads the month off reference + datedelta(months=swift)
+        prefix = common.driver([lines[i].replace('du.month\t', 'du.monthprefix\t', 1) for i in mdiff])
+        for i, pf in zip(mdiff, prefix):
+            if impl[i] == pf:
+                f = lines[i].split('\t')
+                R = dt.datetime(int(f[1]), int(f[2]), int(f[3])) + dt.timedelta(seconds=int(f[4]))
+                want = oracle('month', int(f[5]), R)
+                ctx.report('property', 'next-month-day-overflow', "_parse_one_word_period(%r, %s) -> %s; the property states %r "
+                           '(the code reads the month off reference + datedelta(months=swift) again)' % (meta[i], R, impl[i], want),
+                           failing_input={'op': '_parse_one_word_period', 'expression': meta[i], 'reference': str(R),
+                                          'implementation': impl[i], 'model': model[i], 'property_expects': want},
+                           property_fails=True)
+                diff.remove(i)
+                break
     for i in diff[:3]:
         ctx.report('correspondence', 'parser-' + lines[i].split('\t')[0][3:], '%s (%r): implementation %s, model %s' % (
             lines[i], meta[i], impl[i], model[i]),
@@ -264,90 +329,168 @@ def ago_forms(n, r):
     week = 'week' if n == 1 else 'weeks'
     return [('%d %s ago' % (n, day), ('day', n, -1)), ('in %d %s' % (n, day), ('day', n, 1)),
             ('%d %s from now' % (n, day), ('day', n, 1)), ('%d %s ago' % (n, week), ('week', n, -1)),
-            ('in %d %s' % (n, week), ('week', n, 1))]
+            ('in %d %s' % (n, week), ('week', n, 1)), ('%d %s from today' % (n, day), ('day', n, 1)),
+            ('%d %s from today' % (n, week), ('week', n, 1)), ('%d %s from now' % (n, week), ('week', n, 1))]
+
+
+def hms_forms(n):
+    out = []
+    for unit in ('hour', 'minute', 'second'):
+        w = unit if n == 1 else unit + 's'
+        out += [('%d %s ago' % (n, w), (unit, n, -1)), ('in %d %s' % (n, w), (unit, n, 1)),
+                ('%d %s from now' % (n, w), (unit, n, 1))]
+    return out
+
+
+def pick_refs(ctx, tag, n_b, n_s, must):
+    r = ctx.rng(tag)
+    bdays = calcorr.boundary_days()
+    picked = r.sample(bdays, min(n_b, len(bdays))) + calcorr.seeded_days(r, n_s)
+    return [at(d, calcorr.TIMES[i % 3]) for i, d in enumerate(must + picked)]
+
+
+MUST = [dt.date(2020, 1, 31), dt.date(2019, 1, 29), dt.date(2021, 8, 31), dt.date(2024, 2, 29), dt.date(2020, 12, 31),
+        dt.date(2021, 1, 3), dt.date(2026, 12, 31), dt.date(2000, 2, 29), dt.date(2021, 1, 1), dt.date(2020, 5, 20)]
 
 
 def build_cases(ctx):
+    """(query, reference, family, params, culture, demanded)"""
     r = ctx.rng('pipeline')
-    bdays = calcorr.boundary_days()
-    n_b, n_s = (700, 500) if ctx.thorough else (190, 90)
-    picked = r.sample(bdays, min(n_b, len(bdays))) + calcorr.seeded_days(r, n_s)
-    # the month-end days at which the recorded finding lives must always be present
-    must = [dt.date(2020, 1, 31), dt.date(2019, 1, 29), dt.date(2021, 8, 31), dt.date(2024, 2, 29), dt.date(2020, 12, 31),
-            dt.date(2021, 1, 3), dt.date(2026, 12, 31), dt.date(2000, 2, 29)]
-    refs = [WITNESS_NEXT_MONTH] + [at(d, calcorr.TIMES[i % 3]) for i, d in enumerate(must + picked)]
+    n_b, n_s = (700, 500) if ctx.thorough else (120, 50)
+    refs = [WITNESS_NEXT_MONTH] + WITNESS_WEEKEND + [WITNESS_MTD] + pick_refs(ctx, 'pipeline-refs', n_b, n_s, MUST)
     cases = []
     for i, R in enumerate(refs):
+        def add(q, fam, par):
+            cases.append((q, R, fam, par, 'en-us', True, None))
         for expr, sw in SPECIAL:
-            cases.append((expr, R, 'special', sw))
+            add(expr, 'special', sw)
         for pre, k in SWIFTS:
             for wi, nm in enumerate(WEEKDAYS):
                 if ctx.thorough or i < 40 or (wi + i) % 2 == 0 or wi == R.weekday():
-                    cases.append(('%s %s' % (pre, nm), R, 'weekday', (k, wi + 1)))
+                    add('%s %s' % (pre, nm), 'weekday', (k, wi + 1))
             for unit in ('week', 'month', 'year'):
-                cases.append(('%s %s' % (pre, unit), R, unit, k))
-        cases.append(('now', R, 'now', None))
+                add('%s %s' % (pre, unit), unit, k)
+            add('%s weekend' % pre, 'weekend', k)
+            if ctx.thorough or i < 30 or i % 3 == 0:
+                for pw, fl in PREFIXES:
+                    add('%s %s week' % (pw, pre), 'weekp', (k, fl))
+                    add('%s %s month' % (pw, pre), 'monthp', (k, fl))
+                    add('%s %s year' % (pw, pre), 'yearp', (k, fl))
+        add('now', 'now', None)
+        add('year to date', 'ytd', None)
+        add('month to date', 'mtd', None)
+        for u, w in (('W', 'week'), ('MON', 'month'), ('Y', 'year')):
+            add('rest of the %s' % w, 'restof', u)
         ns = [NS[i % 6], r.randint(1, 5000)] if i >= 12 else NS
         for n in ns:
             for expr, par in ago_forms(n, r):
-                cases.append((expr, R, 'ago', par))
+                add(expr, 'ago', par)
+        for n in ([1, 24, 90] if i < 12 else [r.randint(1, 5000)]):
+            for expr, par in hms_forms(n):
+                add(expr, 'hms', par)
+    return cases
+
+
+def vary_number(text, n2):
+    return re.sub(r'\d+', str(n2), text, count=1)
+
+
+def contract_cases(ctx):
+    """The expressions of contracts/C08.json (every culture, the culture's own words) x references; numbers varied."""
+    contract = calcorr.load_contract('C08')['cultures']
+    r = ctx.rng('contract')
+    cases = []
+    for culture in sorted(contract):
+        n_b, n_s = (120, 60) if ctx.thorough else ((22, 8) if culture != 'en-us' else (14, 6))
+        refs = [WITNESS_NEXT_MONTH] + pick_refs(ctx, 'contract-' + culture, n_b, n_s, MUST[:6])
+        for e in contract[culture]:
+            fam, par = e['family'], e['params']
+            if isinstance(par, list):
+                par = tuple(par)
+            for i, R in enumerate(refs):
+                q, pp_ = e['text'], par
+                if fam in ('ago', 'hms') and i % 2 == 1:
+                    n2 = 100 if i == 1 else (r.choice([1, 2, 7, 30, 365]) if i % 4 == 1 else r.randint(2, 3000))
+                    q, pp_ = vary_number(e['text'], n2), (par[0], n2, par[2])
+                cases.append((q, R, fam, pp_, culture, e.get('level') == 'model', e.get('input') if q == e['text'] else None))
     return cases
 
 
 def pipeline(ctx):
-    cases = build_cases(ctx)
-    results = calcorr.run_pipeline([(c[0], c[1]) for c in cases])
+    cases = build_cases(ctx) + contract_cases(ctx)
+    results = calcorr.run_pipeline([((c[0], c[4]), c[1]) for c in cases])
+    carried = calcorr.retry_in_carrier(cases, results, [c[6] for c in cases])
     mlines, midx = [], []
-    for i, (expr, R, fam, par) in enumerate(cases):
+    for i, (expr, R, fam, par, cul, dem, _car) in enumerate(cases):
         l = model_line(fam, par, R)
         if l:
             mlines.append(l)
             midx.append(i)
         if fam == 'month':
-            mlines.append('du.monthfixed\t%s\t%d' % (ref_fields(R), par))
+            mlines.append('du.monthprefix\t%s\t%d' % (ref_fields(R), par))
             midx.append(-i - 1)
     answers = common.driver(mlines)
-    model, fixed = {}, {}
+    model, prefix = {}, {}
     for i, a in zip(midx, answers):
         if i >= 0:
             model[i] = a
         else:
-            fixed[-i - 1] = a
-    fam_hist = {}
-    for i, ((expr, R, fam, par), res) in enumerate(zip(cases, results)):
-        ctx.count('pipeline:' + fam)
+            prefix[-i - 1] = a
+    unrecognized = {}
+    for i, ((expr, R, fam, par, cul, dem, _car), res) in enumerate(zip(cases, results)):
+        ctx.count('pipeline:%s:%s' % (cul, fam))
         want = oracle(fam, par, R)
-        ent = calcorr.whole_entity(res, expr)
-        got = ent[4] if ent else None
+        ent = calcorr.whole_entity(res, expr) or carried.get(i)
+        got = strip_mod(ent[4]) if ent else None
         if got is not None:
-            ctx.nontriv((fam, expr, str(R)))
-        fi = {'op': 'recognize_datetime', 'query': expr, 'culture': 'en-us', 'reference': R.strftime('%Y-%m-%d %H:%M:%S'),
-              'family': fam, 'implementation': got if ent else res, 'property_expects': want}
+            ctx.nontriv((cul, fam, expr, str(R)))
         mv = model_values(fam, model[i]) if i in model else want
-        if i in model:
-            fi['model'] = mv
-        if got != want:
-            if month_overflow(fam, par, R) and got == mv:
-                sig = 'next-month-day-overflow'
-            else:
-                sig = 'relative-%s' % fam
-            ctx.report('property', sig, '%r at %s: got %r, the property states %r' % (expr, fi['reference'], got, want),
-                       failing_input=fi, property_fails=True)
-        elif fam == 'month' and mv != got:
-            # the tree follows the repaired variant (first of the month shifted): fine, as long as it is that variant
-            if model_values(fam, fixed[i]) != got:
-                ctx.report('correspondence', 'pipeline-month', '%r at %s: implementation %r, model %r' % (
+        if want is None:
+            want = mv               # model-only family: "what the code computes"
+        fi = {'op': 'recognize_datetime', 'query': expr, 'culture': cul, 'reference': R.strftime('%Y-%m-%d %H:%M:%S'),
+              'family': fam, 'params': par, 'implementation': got if ent else res, 'property_expects': want, 'model': mv}
+        if fam in MODEL_ONLY:
+            if got is None and isinstance(res, list) and mv == []:
+                continue            # the code yields no resolution (rest of the month asked on its last day at 00:00:00)
+            if got != mv and not (got == [] and mv == []):
+                ctx.report('correspondence', 'pipeline-' + fam, '%r at %s: implementation %r, model %r' % (
                     expr, fi['reference'], got, mv), failing_input=fi)
-        elif mv != got:
-            ctx.report('correspondence', 'pipeline-' + fam, '%r at %s: implementation %r, model %r' % (
-                expr, fi['reference'], got, mv), failing_input=fi)
-        fam_hist[fam] = fam_hist.get(fam, 0) + 1
+            continue
+        if got == want:
+            if mv != got and isinstance(mv, list):
+                ctx.report('correspondence', 'pipeline-' + fam, '%r (%s) at %s: implementation %r, model %r' % (
+                    expr, cul, fi['reference'], got, mv), failing_input=fi)
+            continue
+        # the property fails on this input: classify
+        if month_overflow(fam, par, R) and i in prefix and got == model_values(fam, prefix[i]):
+            sig = 'next-month-day-overflow'
+        elif fam == 'weekend' and got == mv:
+            sig = 'weekend-timex-reference-year'
+        elif fam == 'mtd' and got == mv:
+            sig = 'month-to-date-past-start'
+        elif cul == 'zh-cn' and fam == 'ago' and par[1] >= 100 and got == calcorr.c08_oracle(
+                fam, (par[0], int(str(par[1])[:2]), par[2]), R):
+            sig = 'zh-ago-number-truncated'
+        elif got is None:
+            unrecognized.setdefault((cul, expr), 0)
+            unrecognized[(cul, expr)] += 1
+            if not dem:
+                continue        # text known from parser-level Specs only: the extractor is not bound to find it on its own
+            sig = 'unrecognized-%s-%s' % (cul, fam)
+        elif cul == 'en-us':
+            sig = 'relative-%s' % fam
+        else:
+            sig = 'relative-%s-%s' % (cul, fam)
+        ctx.report('property', sig, '%r (%s) at %s: got %r, the property states %r' % (expr, cul, fi['reference'], got, want),
+                   failing_input=fi, property_fails=True)
     ctx.sample({'query': cases[5][0], 'reference': str(cases[5][1]), 'implementation': results[5]})
-    ctx.sample({'query': cases[-1][0], 'reference': str(cases[-1][1]), 'implementation': results[-1]})
+    ctx.sample({'query': cases[-1][0], 'culture': cases[-1][4], 'reference': str(cases[-1][1]), 'implementation': results[-1]})
     ctx.extra['pipeline_cases'] = len(cases)
+    ctx.extra['unrecognized_contract_expressions'] = sorted('%s: %s' % k for k in unrecognized)
 
 
 def correspond(ctx):
+    calcorr.cap_reports(ctx)
     common.setup_repo_imports()
     import warnings
     warnings.simplefilter('ignore')
@@ -364,6 +507,7 @@ def correspond(ctx):
         'AgoLaterUtil.get_date_result': AgoLaterUtil.get_date_result, 'DateTimeFormatUtil.luis_date': DateTimeFormatUtil.luis_date,
         'BaseDateParser.parse_implicit_date': BaseDateParser.parse_implicit_date,
         'BaseDatePeriodParser._parse_one_word_period': BaseDatePeriodParser._parse_one_word_period,
+        'BaseDatePeriodParser._parse_duration': BaseDatePeriodParser._parse_duration,
         'BaseDateTimeParser.parse_basic_regex': BaseDateTimeParser.parse_basic_regex}, FINGERPRINTS)
     calcorr.calendar_unit(ctx, 'c08')
     bdays = calcorr.boundary_days()
